@@ -32,6 +32,7 @@ def run (kv : List (String × String)) : IO Res := do
     let tags := [s!"files.{scen}"]
     if result == "skip" then return .ok ("files.skip" :: tags)
     if result == "panic" then return .propfail s!"the dump panicked for a target that maps a file with a hostile name ({scen})" tags
+    if result.startsWith "killed" then return .propfail s!"the dumping process was killed by a signal ({result}) while dumping a target whose mapped file changed ({scen})" tags
     let some path := getHex kv "path" | return .bad "path"
     let some opens := getNat kv "opens" | return .bad "opens"
     if DEV_PREFIX.isPrefixOf path && opens > 0 then
